@@ -612,8 +612,17 @@ class Analyzer:
                     else:
                         out.add(o)
                 return out
-            return Val(inst(summ.ret.own, 0), inst(summ.ret.elem, 1), inst(summ.ret.deep, 2),
-                       isdict=summ.ret.isdict)
+            ret = Val(inst(summ.ret.own, 0), inst(summ.ret.elem, 1), inst(summ.ret.deep, 2),
+                      isdict=summ.ret.isdict)
+            fnode = self.functions[target][1]
+            memo = [d for d in getattr(fnode, "decorator_list", [])
+                    if any(w in unparse(d) for w in ("lru_cache", "functools.cache", "memoize",
+                                                     "memoise")) or unparse(d) == "cache"]
+            if memo and not ret.imm:
+                # a memoised function hands out the same object on every call
+                tag = "MEMO:" + target.split("::")[-1]
+                ret = Val(ret.own | {tag}, ret.elem, ret.deep, isdict=ret.isdict)
+            return ret
         return FRESH
 
     def resolve(self, fsrc):
